@@ -271,6 +271,6 @@ func main() {
 		},
 		QuickBudget: 70, ThoroughBudget: 800,
 		Procs: 16,
-		Run: run, Replay: replay,
+		Run:   run, Replay: replay,
 	})
 }
